@@ -1,63 +1,58 @@
 (* Properties/C08.v — the type checker accepts exactly the conforming objects.
-   Model: Model/TypeCheck.v; declarative reading: Spec/Conforms.v ([conforms] = greatest fixed
-   point of [approx1]); witnesses: Proofs/TypeCheckWitness.v.
+   Model: Model/TypeCheck.v (pdf_type_check.rs after the repairs listed in known_findings.d/C08.json);
+   declarative reading: Spec/Conforms.v ([conforms] = greatest fixed point of [approx1]);
+   witnesses: Proofs/TypeCheckWitness.v.
 
-   The full statement is [C08_statement]: for every well-formed specification
-   (wf_spec: every name defined, no empty disjunction), check = Accept <-> conforms.
-   The faithful model of the pinned code refutes it; each class below is a theorem. *)
+   The full statement is [C08_statement]: for every well-formed specification (wf_spec: every name
+   defined, no empty disjunction), check = Accept <-> conforms.  One class of the pinned code is
+   left open as a known finding (a unit test of the library pins it): dictionary / stream entries
+   whose check has type Any are skipped, predicate and indirection requirement included. *)
 From PV Require Import Spec.Conforms Proofs.TypeCheckWitness.
 
 Theorem C08_refuted : ~ C08_statement.
 Proof. exact C08_statement_false. Qed.
 
-(* 1. memo leak across alternatives *)
-Theorem C08_refuted_memo_leak : accepts_nonconforming [] [] w1_o w1_c.
-Proof. exact refuted_memo_leak. Qed.
-(* 2. a disjunct's own indirection requirement / predicate is not applied *)
-Theorem C08_refuted_disjunct_attrs : accepts_nonconforming [] [] (OInt 5) w2_c.
-Proof. exact refuted_disjunct_attrs. Qed.
-(* 3. the memo ignores predicates and indirection requirements *)
-Theorem C08_refuted_memo_ignores_pred : accepts_nonconforming [] [] (OArr [nameA; nameA]) w3_c.
-Proof. exact refuted_memo_ignores_pred. Qed.
-(* 4. predicates on Dict / Stream / HetArray / non-Any Array types never run *)
-Theorem C08_refuted_compound_pred : accepts_nonconforming [] [] (ODict []) w4_c.
-Proof. exact refuted_compound_pred. Qed.
-Theorem C08_refuted_compound_pred_array : accepts_nonconforming [] [] (OArr [nameA]) w4b_c.
-Proof. exact refuted_compound_pred_array. Qed.
-(* 5. Any-typed dictionary entries and array elements are skipped, attributes included *)
 Theorem C08_refuted_any_entry : accepts_nonconforming [] [] (ODict [([75%N], OInt 5)]) w5_c.
 Proof. exact refuted_any_entry. Qed.
-Theorem C08_refuted_any_elem : accepts_nonconforming [] [] (OArr [OInt 5]) w5b_c.
-Proof. exact refuted_any_elem. Qed.
-(* 6. a self-referential object is accepted at any type *)
-Theorem C08_refuted_self_reference : accepts_nonconforming [((5%N, 0%N), ORef 5 0)] [] (ORef 5 0) tInt.
-Proof. exact refuted_self_reference. Qed.
-(* 7. an examined alternative counts as failed when an error is pending: order dependence *)
-Theorem C08_refuted_examined_alternative : rejects_conforming [] [] nameA w7_c.
-Proof. exact refuted_examined_alternative. Qed.
-Theorem C08_alternative_order_matters : ck [] [] nameA w7r_c = Accept /\ ck [] [] nameA w7_c = Reject EValue.
-Proof. exact examined_alternative_order. Qed.
-(* 8. a named check that resolves to a disjunction is unsupported *)
-Theorem C08_refuted_named_disjunct : rejects_conforming [] w8_tc (OArr [nameA]) w8_c.
-Proof. exact refuted_named_disjunct. Qed.
-(* 9. stale alternative index shared by the disjuncts of one pending set *)
-Theorem C08_refuted_stale_index : accepts_nonconforming [] [] (OArr [OBool true; OStr [115%N]]) w9_c.
-Proof. exact refuted_stale_index. Qed.
-(* 10. an undefined reference under a required indirection is not read as null *)
-Theorem C08_refuted_undefined_required : rejects_conforming [] [] (ORef 9 0) (CRep (TPrim PNull) None IReq).
-Proof. exact refuted_undefined_required. Qed.
+Theorem C08_refuted_any_entry_stream : accepts_nonconforming [] [] (OStream [([75%N], OInt 5)] []) w5s_c.
+Proof. exact refuted_any_entry_stream. Qed.
+Theorem C08_refuted_any_entry_star : accepts_nonconforming [] [] (ODict [([75%N], OInt 5)]) w5x_c.
+Proof. exact refuted_any_entry_star. Qed.
+
+(* the witnesses of the repaired classes: checker and declarative reading now agree *)
+Theorem C08_fixed_memo_leak : agrees [] [] w1_o w1_c false.
+Proof. exact fixed_memo_leak. Qed.
+Theorem C08_fixed_disjunct_attrs : agrees [] [] (OInt 5) w2_c false /\ agrees [((1%N, 0%N), OInt 5)] [] (ORef 1 0) w2_c true.
+Proof. exact fixed_disjunct_attrs. Qed.
+Theorem C08_fixed_memo_pred : agrees [] [] (OArr [nameA; nameA]) w3_c false /\ agrees [] [] (OArr [nameA; nameB]) w3_c true.
+Proof. exact fixed_memo_pred. Qed.
+Theorem C08_fixed_compound_pred : agrees [] [] (ODict []) w4_c false /\ agrees [] [] (OArr [nameA]) w4b_c false.
+Proof. exact fixed_compound_pred. Qed.
+Theorem C08_fixed_any_elem : agrees [] [] (OArr [OInt 5]) w5b_c false.
+Proof. exact fixed_any_elem. Qed.
+Theorem C08_fixed_self_reference :
+  agrees [((5%N, 0%N), ORef 5 0)] [] (ORef 5 0) tInt false /\ agrees [((5%N, 0%N), ORef 5 0)] [] (ORef 5 0) tNull true.
+Proof. exact fixed_self_reference. Qed.
+Theorem C08_fixed_examined_alternative : agrees [] [] nameA w7_c true /\ agrees [] [] nameA w7r_c true.
+Proof. exact fixed_examined_alternative. Qed.
+Theorem C08_fixed_named_disjunct : agrees [] w8_tc (OArr [nameA]) w8_c true /\ agrees [] w8_tc (OArr [OInt 5]) w8_c false.
+Proof. exact fixed_named_disjunct. Qed.
+Theorem C08_fixed_stale_index : agrees [] [] (OArr [OBool true; OStr [115%N]]) w9_c false.
+Proof. exact fixed_stale_index. Qed.
+Theorem C08_fixed_undefined_required : agrees [] [] (ORef 9 0) (CRep (TPrim PNull) None IReq) true.
+Proof. exact fixed_undefined_required. Qed.
 
 Print Assumptions C08_refuted.
-Print Assumptions C08_refuted_memo_leak.
-Print Assumptions C08_refuted_disjunct_attrs.
-Print Assumptions C08_refuted_memo_ignores_pred.
-Print Assumptions C08_refuted_compound_pred.
-Print Assumptions C08_refuted_compound_pred_array.
 Print Assumptions C08_refuted_any_entry.
-Print Assumptions C08_refuted_any_elem.
-Print Assumptions C08_refuted_self_reference.
-Print Assumptions C08_refuted_examined_alternative.
-Print Assumptions C08_alternative_order_matters.
-Print Assumptions C08_refuted_named_disjunct.
-Print Assumptions C08_refuted_stale_index.
-Print Assumptions C08_refuted_undefined_required.
+Print Assumptions C08_refuted_any_entry_stream.
+Print Assumptions C08_refuted_any_entry_star.
+Print Assumptions C08_fixed_memo_leak.
+Print Assumptions C08_fixed_disjunct_attrs.
+Print Assumptions C08_fixed_memo_pred.
+Print Assumptions C08_fixed_compound_pred.
+Print Assumptions C08_fixed_any_elem.
+Print Assumptions C08_fixed_self_reference.
+Print Assumptions C08_fixed_examined_alternative.
+Print Assumptions C08_fixed_named_disjunct.
+Print Assumptions C08_fixed_stale_index.
+Print Assumptions C08_fixed_undefined_required.
